@@ -54,6 +54,7 @@ struct Scenario
     int64_t                      now = 0;
     std::vector<Op>              pre;
     std::vector<std::vector<Op>> progs;
+    std::vector<Op>              post; // sequential calls after all threads finished, each at its own clock reading
 };
 
 using C = typename Sel<int64_t, thread_safe::yes>::type;
@@ -152,8 +153,11 @@ static bool run_once(const Scenario& sc, const std::vector<int>& choices, std::v
     for (int t = 0; t < nt; ++t)
         for (size_t j = 0; j < recs[t].size(); ++j)
             out << " " << t << "." << j << " inv=" << recs[t][j].inv << " ret=" << recs[t][j].ret << " " << recs[t][j].res << " ;";
-    // final observation (single-threaded now)
+    // sequential epilogue (single-threaded now): later lookups that make stored deadlines observable
     ctl::my_tid = -1;
+    for (size_t j = 0; j < sc.post.size(); ++j)
+        out << " post." << j << " inv=0 ret=0 " << apply<C, int64_t>(*c, sc.post[j]) << " ;";
+    vclock::now_ns = sc.post.empty() ? sc.now : sc.post.back().now;
     out << " | final s" << c->size();
     for (Key k : sc.cfg.universe)
         out << " " << k << "=" << peek_key<C, int64_t>(*c, k);
@@ -233,6 +237,12 @@ int main(int argc, char** argv)
             std::string opw;
             ls >> opw; // "op"
             sc.pre.push_back(parse_op(ls));
+        }
+        else if (w == "post")
+        {
+            std::string opw;
+            ls >> opw;
+            sc.post.push_back(parse_op(ls));
         }
         else if (w == "thread")
         {
